@@ -121,6 +121,8 @@ jobs:
         with:
           «ref»: main
           «fetch-depth»: 1
+          «args»: a
+          «entrypoint»: e
       - run: echo ${{ «steps».«s1».«outputs».«aout» }} ${{ «steps».«s2».«outputs».«ref» }} ${{ «steps»['«s1»'].«conclusion» }}
         env:
           «senv»: ${{ «matrix».«os» }} ${{ «matrix».«extra» }} ${{ «matrix».«ver».«maj» }} ${{ «matrix»['«os»'] }}
